@@ -167,6 +167,17 @@ def typeOf (D : Decls) (Γ : List (String × CT)) : CExpr → Option CT
       if t.depth = 0 ∧ t.lvl = 0 ∧ (t.cls ∈ arithAll ∨ D.isEnum t.cls) ∧ ty ∈ arithAll then
         some { cls := ty, lvl := 0, depth := 0 } else none
 
+/-- a declared collection type is consistent with the class table: its array class has that
+element type -/
+def tyOk (D : Decls) : RTy → Bool
+  | .value _ => true
+  | .coll arr elem => D.iterOf arr.name = some (ctOf elem)
+
+/-- The declarations describe one set of C++ classes: every collection class has one element
+type (also the event collection), and `at` is not declared as an ordinary method. -/
+def Decls.consistent (D : Decls) : Bool :=
+  D.reg.all fun x => tyOk D x.2.rty && x.1.2 != "at"
+
 /-- what a range-`for` over an expression of type `t` binds its variable to -/
 def Decls.iterOfTy (D : Decls) (t : CT) : Option CT :=
   if t.depth = 0 ∧ t.lvl = 0 then D.iterOf t.cls else none
